@@ -1,7 +1,7 @@
 //! Which scenarios decide which property, and with what budget.
 
 use crate::framework::{Scenario, Tier};
-use crate::{scen_agg, scen_bridge, scen_emf, scen_global, scen_queue, scen_sample, scen_time, scen_uow};
+use crate::{scen_agg, scen_bridge, scen_hist, scen_emf, scen_global, scen_queue, scen_sample, scen_time, scen_uow};
 
 pub fn scenarios(prop: &str) -> Vec<Box<dyn Scenario>> {
     match prop {
@@ -17,12 +17,13 @@ pub fn scenarios(prop: &str) -> Vec<Box<dyn Scenario>> {
         "C16" => vec![Box::new(scen_emf::EmfWriterFaults), Box::new(scen_emf::SinkFaults)],
         "C09" => vec![Box::new(scen_queue::QueueOverflow)],
         "C10" => vec![Box::new(scen_agg::Aggregation)],
+        "C11" => vec![Box::new(scen_hist::Histograms)],
         "C20" => vec![Box::new(scen_bridge::Bridge), Box::new(scen_bridge::BridgeReporter)],
         _ => vec![],
     }
 }
 
-pub const CLAIMED: [&str; 13] = ["C01", "C04", "C05", "C06", "C09", "C10", "C12", "C13", "C14", "C16", "C17", "C18", "C20"];
+pub const CLAIMED: [&str; 14] = ["C01", "C04", "C05", "C06", "C09", "C10", "C11", "C12", "C13", "C14", "C16", "C17", "C18", "C20"];
 
 pub struct Budget {
     /// number of runs (quick: exactly this many; thorough: upper bound)
@@ -48,6 +49,7 @@ pub fn budget(prop: &str, tier: Tier) -> Budget {
         "C16" => (6_000, 600),
         "C10" => (100_000, 600),
         "C20" => (300_000, 600),
+        "C11" => (200_000, 600),
         _ => (20_000, 600),
     };
     match tier {
